@@ -1,4 +1,65 @@
 import TsRsVerif.Model.Export
+import TsRsVerif.Lemmas.AbsLemmas
+import TsRsVerif.Lemmas.SpellingLemmas
+/-!
+# C06 — export results depend only on what was exported, not how or in what order
+
+Proven here (over `Model/Export.lean`): the result of an export does not depend on *which entry
+point* is used (`export` ≡ `export_into` the default directory — this is exactly what the pinned
+snapshot violated and the `fix:` commit repaired), nor on *how the directory is spelled* (any two
+spellings that `path::absolute` normalises alike drive the whole depth-first export identically),
+because the registry key is always the normalised path and `absolute` is idempotent.
+Order independence of the file *contents* is C05's theorem (`C05_order_independent`); that the
+textual merge realises it on the bytes is checked per history (see C05, partial).
+-/
 namespace TsRs
-theorem C06_placeholder : True := trivial
+open Text Export Path
+
+/-- **entry-point independence**: `T::export()` does exactly what `export_into::<T>(default dir)`
+(the unit of `export_all`) does — same file, same registry key, same outcome. -/
+theorem C06_export_eq_export_into (u : Universe) (dod : Str) (w : World) (i : Nat) (t : TyInfo) (op : Str)
+    (hu : u[i]? = some t) (ho : t.outputPath = some op) :
+    runEntry u dod w (.export i) = some (exportInto w t dod) := by
+  simp only [runEntry, hu, ho, exportInto]
+  congr 1
+  cases ha : absolute (cwdStr w.fs) (join dod op) with
+  | error e => simp [exportTo, ha]
+  | ok p =>
+    simp only
+    have hcwd : isAbsolute (cwdStr w.fs) = true := by simp [cwdStr, isAbsolute]
+    have hid := absolute_idem _ _ _ hcwd ha
+    simp [exportTo, ha, hid]
+
+/-- **the registry key is a normal form**: normalising twice is normalising once -/
+theorem C06_key_normal_form (cwd p q : Str) (hcwd : isAbsolute cwd = true) (h : absolute cwd p = .ok q) :
+    absolute cwd q = .ok q := absolute_idem cwd p q hcwd h
+
+/-- **spelling independence**: if two spellings `d`, `d'` of the export directory normalise alike
+(`SameDir`), the whole `export_all_to` walk — file system, registry, visited set, outcome — is the
+same, for every universe of types, every world and every root. -/
+theorem C06_spelling_independent (u : Universe) (w : World) (d d' : Str) (i : Nat)
+    (h : SameDir w.fs.cwd d d') :
+    runEntry u "".toList w (.exportAllTo i d) = runEntry u "".toList w (.exportAllTo i d') := by
+  simp only [runEntry]
+  rw [(exportRec_spelling u w.fs.cwd d d' h (u.length + 1) w [] i rfl).1]
+
+/-- one export step under two spellings of the same path is the same step -/
+theorem C06_step_spelling (w : World) (t : TyInfo) (p p' : Str)
+    (h : absolute (cwdStr w.fs) p = absolute (cwdStr w.fs) p') : exportTo w t p = exportTo w t p' := by
+  simp [exportTo, h]
+
+/-! ## the spellings of the property statement, for a concrete directory (by evaluation) -/
+example : let cwd := "/home/u/proj".toList
+    absolute cwd "./bindings/A.ts".toList = .ok "/home/u/proj/bindings/A.ts".toList ∧
+    absolute cwd "bindings//A.ts".toList = .ok "/home/u/proj/bindings/A.ts".toList ∧
+    absolute cwd "/home/u/proj/bindings/A.ts".toList = .ok "/home/u/proj/bindings/A.ts".toList ∧
+    absolute cwd "x/../bindings/./A.ts".toList = .ok "/home/u/proj/bindings/A.ts".toList ∧
+    absolute cwd "../proj/bindings/A.ts".toList = .ok "/home/u/proj/bindings/A.ts".toList := by decide
+
+/-! ## the defect of the pinned snapshot, as a counter-example: the key `export()` used -/
+/-- before the fix `export()` keyed the registry by the un-normalised path: as `PathBuf`s the two
+spellings of one file are different keys -/
+theorem C06_old_cex_keys_differ :
+    regKey "./bindings/shared.ts".toList ≠ regKey "/w/bindings/shared.ts".toList := by decide
+
 end TsRs
